@@ -159,7 +159,7 @@ func ruleChainLoad(c *Ctx, rule string) {
 			if in == ssa.Instruction(lk.call) {
 				callStates[K]++
 				callee := ex.Canon(st, lk.call.Call.Value).S
-				re := regexp.MustCompile(`^lookup@t\d+\(` + reQ(modPath) + `/plugins\.RegisteredPlugins,\$0\.Server` + K + `\.Plugins\[(\(φt\d+ \+ 1\))\]\.Name\)#0\.Setup` + K + `$`)
+				re := regexp.MustCompile(`^lookup@(?:[\w$]+·)?t\d+\(` + reQ(modPath) + `/plugins\.RegisteredPlugins,\$0\.Server` + K + `\.Plugins\[(\(φ(?:[\w$]+·)?t\d+ \+ 1\))\]\.Name\)#0\.Setup` + K + `$`)
 				m := re.FindStringSubmatch(callee)
 				if m == nil {
 					addp(K, "setup function is not RegisteredPlugins[conf.Server"+K+".Plugins[i].Name].Setup"+K+": "+shortName(callee))
@@ -169,7 +169,7 @@ func ruleChainLoad(c *Ctx, rule string) {
 				if v, _ := histFact(st, "nil", regexp.MustCompile(`^\$0\.Server`+K+`$`)); v != 0 {
 					addp(K, "plugins are loaded without conf.Server"+K+" != nil being established")
 				}
-				if v, _ := histFact(st, "bool", regexp.MustCompile(`^lookup@t\d+\(.*RegisteredPlugins.*\)#1$`)); v != 1 {
+				if v, _ := histFact(st, "bool", regexp.MustCompile(`^lookup@(?:[\w$]+·)?t\d+\(.*RegisteredPlugins.*\)#1$`)); v != 1 {
 					addp(K, "setup called although the registry lookup did not succeed")
 				}
 				if n, _ := ex.NilState(st, lk.call.Call.Value); n != 0 {
@@ -182,7 +182,7 @@ func ruleChainLoad(c *Ctx, rule string) {
 				elem := ""
 				if sl, ok := lk.append.Call.Args[1].(*ssa.Slice); ok {
 					if al, ok := sl.X.(*ssa.Alloc); ok {
-						if e, ok := st.lookupStore("new@" + al.Name() + "[0]"); ok {
+						if e, ok := st.lookupStore("new@" + anm(al) + "[0]"); ok {
 							elem = e.ce.S + e.suffix
 						}
 					}
@@ -216,7 +216,7 @@ func ruleChainLoad(c *Ctx, rule string) {
 				continue
 			}
 			K := lk.K
-			found, _ := histFact(st, "bool", regexp.MustCompile(`^lookup@t\d+\(.*RegisteredPlugins.*\)#1$`))
+			found, _ := histFact(st, "bool", regexp.MustCompile(`^lookup@(?:[\w$]+·)?t\d+\(.*RegisteredPlugins.*\)#1$`))
 			if found != 1 {
 				addp(K, "an unknown plugin name does not abort loading (iteration continues)")
 			}
@@ -393,10 +393,10 @@ func ruleParseOrder(c *Ctx, rule string) {
 			return
 		}
 		// the ranged collection is the parameter, the item map is cast.ToStringMap(list[i]) with exactly one key
-		if v, _ := histEq(st, regexp.MustCompile(`^len\(github\.com/spf13/cast\.ToStringMap(@t\d+)?\(\$0\[\(φt\d+ \+ 1\)\]\)\)$`), "1"); v != 1 {
+		if v, _ := histEq(st, regexp.MustCompile(`^len\(github\.com/spf13/cast\.ToStringMap(@(?:[\w$]+·)?t\d+)?\(\$0\[\(φ(?:[\w$]+·)?t\d+ \+ 1\)\]\)\)$`), "1"); v != 1 {
 			addp("item appended without len(item) == 1 being established")
 		}
-		if v, _ := histFact(st, "nil", regexp.MustCompile(`^github\.com/spf13/cast\.ToStringMap(@t\d+)?\(\$0\[\(φt\d+ \+ 1\)\]\)$`)); v != 0 {
+		if v, _ := histFact(st, "nil", regexp.MustCompile(`^github\.com/spf13/cast\.ToStringMap(@(?:[\w$]+·)?t\d+)?\(\$0\[\(φ(?:[\w$]+·)?t\d+ \+ 1\)\]\)$`)); v != 0 {
 			addp("item appended without the string-map conversion being checked non-nil")
 		}
 		if ph, ok := app.Call.Args[0].(*ssa.Phi); !ok || ph.Block().Index != hdr {
@@ -405,13 +405,13 @@ func ruleParseOrder(c *Ctx, rule string) {
 		// appended struct: Name from the map key, Args = strings.Fields(cast.ToString(value))
 		if sl, ok := app.Call.Args[1].(*ssa.Slice); ok {
 			if arr, ok := sl.X.(*ssa.Alloc); ok {
-				name, _ := st.ReadLocal("new@" + arr.Name() + "[0].Name")
-				args, _ := st.ReadLocal("new@" + arr.Name() + "[0].Args")
+				name, _ := st.ReadLocal("new@" + anm(arr) + "[0].Name")
+				args, _ := st.ReadLocal("new@" + anm(arr) + "[0].Args")
 				if name == `""` && args == "nil" {
 					return // the (infeasible for len==1) empty-map path
 				}
 				mN := regexp.MustCompile(`^next@(t\d+)#1$`).FindStringSubmatch(name)
-				mA := regexp.MustCompile(`^strings\.Fields(@t\d+)?\(github\.com/spf13/cast\.ToString(@t\d+)?\(next@(t\d+)#2\)\)$`).FindStringSubmatch(args)
+				mA := regexp.MustCompile(`^strings\.Fields(@(?:[\w$]+·)?t\d+)?\(github\.com/spf13/cast\.ToString(@(?:[\w$]+·)?t\d+)?\(next@(t\d+)#2\)\)$`).FindStringSubmatch(args)
 				if mN != nil {
 					nameOK = true
 				} else {
